@@ -71,23 +71,43 @@ func runC10(c *core.Ctx) {
 		c.Unknown("R3", "PublisherDef.Publish", "-", "method not found")
 	} else {
 		c.Analysed(core.FuncName(pub))
+		// the delivery closure (the one calling OnNext): created in the publish loop itself, or in a helper
+		// that the loop calls once per subscriber
+		callsOnNext := func(fn *ssa.Function) bool {
+			found := false
+			core.Instrs(fn, func(ins ssa.Instruction) {
+				if call, ok := ins.(*ssa.Call); ok && core.FieldKey(call.Call.Value) == "Subscription.OnNext" {
+					found = true
+				}
+			})
+			return found
+		}
 		var deliver *ssa.MakeClosure
-		core.Instrs(pub, func(ins ssa.Instruction) {
-			if mc, ok := ins.(*ssa.MakeClosure); ok && core.InLoop(mc.Block()) {
-				deliver = mc
-			}
-		})
-		if deliver == nil {
+		var dstack []*ssa.Call
+		for _, f := range core.DeepFind(p, pub, func(ins ssa.Instruction) bool {
+			mc, ok := ins.(*ssa.MakeClosure)
+			return ok && callsOnNext(mc.Fn.(*ssa.Function))
+		}) {
+			deliver, dstack = f.Ins.(*ssa.MakeClosure), f.Stack
+		}
+		inLoop := deliver != nil && (len(dstack) == 0 && core.InLoop(deliver.Block()) || len(dstack) > 0 && core.InLoop(dstack[0].Block()))
+		if deliver == nil || !inLoop {
 			c.Unknown("R3", "PublisherDef.Publish/deliver", p.Pos(pub.Pos()), "no delivery closure created in the publish loop")
 		} else {
-			// guarded by OnNext != nil
+			// guarded by OnNext != nil (next to the closure or at a call on the way to it)
 			guarded := false
-			for _, m := range core.EdgeCmps(deliver.Block()) {
-				if m.Op == token.NEQ && core.IsNilConst(m.Y) && core.FieldKey(m.X) == "Subscription.OnNext" {
-					guarded = true
+			blocks := []*ssa.BasicBlock{deliver.Block()}
+			for _, sc := range dstack {
+				blocks = append(blocks, sc.Block())
+			}
+			for _, bb := range blocks {
+				for _, m := range core.EdgeCmps(bb) {
+					if m.Op == token.NEQ && core.IsNilConst(m.Y) && core.FieldKey(m.X) == "Subscription.OnNext" {
+						guarded = true
+					}
 				}
 			}
-			min, max := core.PathCountIter(deliver.Block(), deliver, func(ins ssa.Instruction) int {
+			hand := func(ins ssa.Instruction) int {
 				switch x := ins.(type) {
 				case *ssa.Call:
 					if x.Call.Value == ssa.Value(deliver) {
@@ -107,7 +127,36 @@ func runC10(c *core.Ctx) {
 					}
 				}
 				return 0
-			}, nil)
+			}
+			var min, max int
+			if len(dstack) == 0 {
+				min, max = core.PathCountIter(deliver.Block(), deliver, hand, nil)
+			} else {
+				// in the helper: from the creation of the closure to the helper's end; in the loop: the helper is
+				// called exactly once per iteration (every call on the way)
+				min, max = core.PathCountFrom(deliver.Block(), deliver, hand, nil)
+				for _, sc := range dstack {
+					scc := sc
+					from := scc.Block()
+					cmin, cmax := 1, 1
+					if core.InLoop(from) {
+						// count this call along one iteration, starting at the loop body's first block
+						start := from
+						for start.Idom() != nil && core.InLoop(start.Idom()) && len(start.Idom().Succs) < 2 {
+							start = start.Idom()
+						}
+						cmin, cmax = core.PathCountIter(start, nil, func(ins ssa.Instruction) int {
+							if ins == ssa.Instruction(scc) {
+								return 1
+							}
+							return 0
+						}, nil)
+					}
+					if cmin != 1 || cmax != 1 {
+						min, max = cmin*min, cmax*max
+					}
+				}
+			}
 			c.Check(guarded && min == 1 && max == 1, "R3", "PublisherDef.Publish/once-per-subscriber", p.InstrPos(deliver),
 				"under OnNext != nil exactly one of {call, Post} of the delivery closure on every path",
 				fmt.Sprintf("delivery count per subscriber is between %d and %d (must be exactly 1) or not guarded by OnNext != nil (guarded=%v)", min, max, guarded))
@@ -121,11 +170,19 @@ func runC10(c *core.Ctx) {
 				return 0
 			}, nil)
 			argOK := false
+			bc := core.ResolveClosure(p, deliver)
 			core.Instrs(fn, func(ins ssa.Instruction) {
 				if call, ok := ins.(*ssa.Call); ok && core.FieldKey(call.Call.Value) == "Subscription.OnNext" && len(call.Call.Args) == 1 {
 					// argument is the captured published value
-					if core.Path(call.Call.Args[0]) == pub.Params[1].Name() {
+					if core.Path(call.Call.Args[0]) == pub.Params[1].Name() && len(dstack) == 0 {
 						argOK = true
+					}
+					if bc != nil {
+						if b := bc.Bind[core.Path(call.Call.Args[0])]; b != nil {
+							if v, st := core.Up(b, dstack); len(st) == 0 && v == ssa.Value(pub.Params[1]) {
+								argOK = true
+							}
+						}
 					}
 				}
 			})
